@@ -49,8 +49,20 @@ def atIdx (o : Rep) (i : Nat) : Option Entry :=
   | some k => lookup o.vals k
   | none => none
 
-/-- `o.Reverse()` (in place: the receiver is the result) -/
-def reverse (o : Rep) : Rep := { o with keys := o.keys.reverse }
+/-- the loop of `OrderedMap.Reverse`: `for i := len/2 - 1; i >= 0; i-- { keys[i], keys[len-1-i] = keys[len-1-i], keys[i] }`;
+    `k` = number of iterations still to run (the next index is `k - 1`) -/
+def swapAt {α : Type} (l : List α) (i j : Nat) : List α :=
+  match l[i]?, l[j]? with
+  | some a, some b => (l.set i b).set j a
+  | _, _ => l
+
+def revLoop {α : Type} (l : List α) : Nat → List α
+  | 0 => l
+  | k + 1 => revLoop (swapAt l k (l.length - 1 - k)) k
+
+
+/-- `o.Reverse()` (in place: the receiver is the result): the swap loop over the key slice -/
+def reverse (o : Rep) : Rep := { o with keys := revLoop o.keys (o.keys.length / 2) }
 
 /-- `o.Copy()`: a new key slice and a new Go map with the same pairs -/
 def copy (o : Rep) : Rep := o
